@@ -81,6 +81,10 @@ CAUSE_DOC = collections.OrderedDict([
     ("multi-file",
      "several N-Triples files read through list_of_source_files (sheXer's factory: MultiNtTriplesYielder, also over the members "
      "of one ZIP archive): triples in file order, error_triples = malformed lines so far while every triple is yielded and at the end"),
+    ("multi-file:compressed",
+     "gz / xz compressed N-Triples files through get_triple_yielder(list_of_source_files=..., input_format='nt', "
+     "compression_mode=...) (and, as controls, one gz / xz / zip file through source_file=): valid documents, so the triples "
+     "of all members in order and error_triples == 0"),
     ("multi-zip",
      "two ZIP archives (MultiZipTriplesYielder): once the iteration is over the totals count the last archive twice "
      "(its figures are added to the running total AND still read from _current_yielder)"),
@@ -150,8 +154,12 @@ def make_key(pid, category, symptom):
 
 
 def split_key(key):
-    pid, category, symptom = key.split(":", 2)
-    return pid, category, symptom
+    """-> (pid, category, symptom class); the category may itself hold ':' (multi-file:compressed), the symptom class is
+    the last component, or 'raise:<ExceptionType>'."""
+    parts = key.split(":")
+    if len(parts) >= 4 and parts[-2] == "raise":
+        return parts[0], ":".join(parts[1:-2]), "raise:" + parts[-1]
+    return parts[0], ":".join(parts[1:-1]), parts[-1]
 
 
 def _key_rank(pid, key):
@@ -719,6 +727,17 @@ def _mutants():
                 yield a_triple
         return patch(mf, "_yield_triples_of_file", bad)
 
+    def list_of_files_loses_compression_mode():
+        F = sys.modules["shexer.utils.factories.triple_yielders_factory"]
+        old = F._yielder_for_nt
+
+        def bad(source_file, raw_graph, allow_untyped_numbers, list_of_source_files, compression_mode, zip_base_archives):
+            if source_file is None and raw_graph is None and zip_base_archives is None:
+                return F.MultiNtTriplesYielder(list_of_files=list_of_source_files, allow_untyped_numbers=allow_untyped_numbers)
+            return old(source_file=source_file, raw_graph=raw_graph, allow_untyped_numbers=allow_untyped_numbers,
+                       list_of_source_files=list_of_source_files, compression_mode=compression_mode, zip_base_archives=zip_base_archives)
+        return patch(F, "_yielder_for_nt", bad)
+
     def bnode_label_by_regex():
         import re as _re
         pat = _re.compile(r"_:[\w\-]+")
@@ -791,6 +810,8 @@ def _mutants():
         ("C06", "RawStringLineReader.read_lines uses str.splitlines()", lines_by_splitlines, "", "C06:unicode-line-separator-in-literal:"),
         ("C06", "multi-file: yielded_triples of the finished file added to the error total", errors_of_a_finished_file_swapped, "",
          "C06:multi-file:error-count"),
+        ("C06", "_yielder_for_nt: the list-of-files branch drops compression_mode", list_of_files_loses_compression_mode, "",
+         "C06:multi-file:compressed:"),
         ("C06", "_look_for_last_index_of_bnode_token matches _:[\\w\\-]+", bnode_label_by_regex, "", "C06:bnode-label-with-dot:"),
         ("C07", "parse_literal caches the datatype by the text after the closing quote", literal_type_cached_by_suffix, "",
          "C07:relative-datatype-under-base:"),
